@@ -1,2 +1,1093 @@
-From Coq Require Import ZArith List Bool String.
+(* C01/Proofs.v — lemmas behind Properties.v *)
+From Coq Require Import ZArith List Bool String Lia Arith.
+From Coq Require Import Floats.SpecFloat.
 From C01 Require Import Generated Model Spec.
+Import ListNotations.
+Open Scope list_scope.
+Open Scope Z_scope.
+
+(* ------------------------------------------------------------------ result monad *)
+Lemma rmap_ext : forall {A B} (f g : A -> result B) l,
+  (forall x, In x l -> f x = g x) -> rmap f l = rmap g l.
+Proof.
+  induction l as [|x r IH]; intros H; [reflexivity|].
+  cbn [rmap]. rewrite (H x (or_introl eq_refl)). rewrite IH; [reflexivity|].
+  intros y Hy. apply H. right. exact Hy.
+Qed.
+
+Lemma rzip_ext : forall {A B C} (f g : A -> B -> result C) la lb,
+  (forall x y, In x la -> In y lb -> f x y = g x y) -> rzip f la lb = rzip g la lb.
+Proof.
+  induction la as [|x la IH]; intros lb H; destruct lb as [|y lb]; try reflexivity.
+  cbn [rzip]. rewrite (H x y (or_introl eq_refl) (or_introl eq_refl)).
+  rewrite (IH lb); [reflexivity|].
+  intros x' y' Hx Hy. apply H; right; assumption.
+Qed.
+
+(* ------------------------------------------------------------------ shapes *)
+Lemma nat_list_eqb_eq : forall a b, list_eqb Nat.eqb a b = true -> a = b.
+Proof.
+  induction a as [|x a IH]; destruct b as [|y b]; cbn; intros H; try reflexivity; try discriminate.
+  apply andb_true_iff in H. destruct H as [H1 H2]. apply Nat.eqb_eq in H1. subst. f_equal. apply IH. exact H2.
+Qed.
+
+Lemma nat_list_eqb_refl : forall a, list_eqb Nat.eqb a a = true.
+Proof. induction a as [|x a IH]; cbn; [reflexivity|]. rewrite Nat.eqb_refl. exact IH. Qed.
+
+Lemma shape_eqb_some : forall o s, shape_eqb o (Some s) = true -> o = Some s.
+Proof. intros [x|] s H; cbn in H; [|discriminate]. apply nat_list_eqb_eq in H. subst. reflexivity. Qed.
+
+Lemma shape_eqb_true : forall a b, shape_eqb a b = true -> exists s, a = Some s /\ b = Some s.
+Proof.
+  intros [x|] [y|] H; cbn in H; try discriminate. apply nat_list_eqb_eq in H. subst. exists y. split; reflexivity.
+Qed.
+
+Lemma rshape_list : forall l sh, rshape (VL l) = Some sh ->
+  exists s, sh = List.length l :: s /\ Forall (fun y => rshape y = Some s) l.
+Proof.
+  intros l sh H. destruct l as [|x r].
+  - cbn in H. inversion H. exists []. split; [reflexivity|constructor].
+  - cbn [rshape] in H. destruct (rshape x) as [s|] eqn:Hx; [|discriminate].
+    destruct (forallb (fun y => shape_eqb (rshape y) (Some s)) r) eqn:Hall; [|discriminate].
+    inversion H. exists s. split; [reflexivity|].
+    constructor; [exact Hx|].
+    apply Forall_forall. intros y Hy. rewrite forallb_forall in Hall. apply shape_eqb_some. apply Hall. exact Hy.
+Qed.
+
+Lemma rshape_nil_atom : forall v, rshape v = Some [] -> is_num v = true.
+Proof.
+  intros v H. destruct v as [z|r|c|s|s|l|]; try reflexivity; try (cbn in H; discriminate).
+  destruct (rshape_list _ _ H) as [s [E _]]. discriminate.
+Qed.
+
+Lemma rshape_cons_list : forall v d s, rshape v = Some (d :: s) -> exists l, v = VL l.
+Proof. intros v d s H. destruct v; cbn in H; try discriminate. eexists; reflexivity. Qed.
+
+Lemma is_num_not_arr : forall v, is_num v = true -> is_arr v = false.
+Proof. destruct v; cbn; intros; try discriminate; reflexivity. Qed.
+
+(* ------------------------------------------------------------------ unfolding the spec *)
+Lemma s2_lists : forall f la lb, s2 f (VL la) (VL lb) = okl (rzip (s2 f) la lb).
+Proof.
+  intros f la lb. reflexivity.
+Qed.
+
+Lemma s2_list_atom : forall f la b, is_arr b = false -> s2 f (VL la) b = okl (rmap (fun x => s2 f x b) la).
+Proof. intros f la b H. destruct b; try reflexivity. discriminate. Qed.
+
+Lemma s2_atom : forall f a b, is_arr a = false -> s2 f a b = sright f a b.
+Proof. intros f a b H. destruct a; try reflexivity. discriminate. Qed.
+
+Lemma sright_list : forall f a lb, sright f a (VL lb) = okl (rmap (sright f a) lb).
+Proof. reflexivity. Qed.
+
+Lemma sright_atom : forall f a b, is_arr b = false -> sright f a b = f a b.
+Proof. intros f a b H. destruct b; try reflexivity. discriminate. Qed.
+
+Lemma same2_combine : forall f la lb, same2 f la lb = true ->
+  List.length la = List.length lb /\ (forall x y, In (x, y) (combine la lb) -> f x y = true).
+Proof.
+  intros f. induction la as [|x la IH]; intros lb H; destruct lb as [|y lb]; try discriminate.
+  - split; [reflexivity|]. intros ? ? [].
+  - cbn [same2] in H. apply andb_true_iff in H. destruct H as [H1 H2]. destruct (IH lb H2) as [L R].
+    split; [cbn; f_equal; exact L|].
+    intros x' y' [E|Hin]; [inversion E; subst; exact H1|apply R; exact Hin].
+Qed.
+
+Lemma all2_combine : forall f la lb, all2 f la lb = true ->
+  forall x y, In (x, y) (combine la lb) -> f x y = true.
+Proof.
+  intros f. induction la as [|x la IH]; intros lb H x' y' Hin; destruct lb as [|y lb]; try (destruct Hin; fail).
+  cbn [all2] in H. apply andb_true_iff in H. destruct H as [H1 H2].
+  destruct Hin as [E|Hin]; [inversion E; subst; exact H1|eapply IH; eassumption].
+Qed.
+
+Lemma any2_combine : forall f la lb, any2 f la lb = false ->
+  forall x y, In (x, y) (combine la lb) -> f x y = false.
+Proof.
+  intros f. induction la as [|x la IH]; intros lb H x' y' Hin; destruct lb as [|y lb]; try (destruct Hin; fail).
+  cbn [any2] in H. apply orb_false_iff in H. destruct H as [H1 H2].
+  destruct Hin as [E|Hin]; [inversion E; subst; exact H1|eapply IH; eassumption].
+Qed.
+
+Lemma conformable_lists : forall la lb, conformable (VL la) (VL lb) = true ->
+  List.length la = List.length lb /\ (forall x y, In (x, y) (combine la lb) -> conformable x y = true).
+Proof. intros la lb H. apply same2_combine. exact H. Qed.
+
+Lemma rzip_ext_combine : forall {A B C} (f g : A -> B -> result C) la lb,
+  (forall x y, In (x, y) (combine la lb) -> f x y = g x y) -> rzip f la lb = rzip g la lb.
+Proof.
+  induction la as [|x la IH]; intros lb H; destruct lb as [|y lb]; try reflexivity.
+  cbn [rzip]. rewrite (H x y (or_introl eq_refl)). rewrite (IH lb); [reflexivity|].
+  intros x' y' Hin. apply H. right. exact Hin.
+Qed.
+
+Lemma in_combine_both : forall {A B} (la : list A) (lb : list B) x y, In (x, y) (combine la lb) -> In x la /\ In y lb.
+Proof. intros. split; [eapply in_combine_l|eapply in_combine_r]; eassumption. Qed.
+
+(* ------------------------------------------------------------------ NumPy broadcasting = member-wise extension
+   on operands of equal shape, and scalar extension *)
+Section BC.
+  Variables elem g : val -> val -> res.
+  Hypothesis elem_num : forall x y, is_arr x = false -> is_arr y = false -> elem x y = g x y.
+
+  Lemma bc_same : forall sh n a b,
+    rshape a = Some sh -> rshape b = Some sh -> (2 * List.length sh < n)%nat ->
+    bc n elem (List.length sh) (List.length sh) a b = s2 g a b.
+  Proof.
+    induction sh as [|d s IH]; intros n a b Ha Hb Hn.
+    - destruct n as [|n']; [cbn in Hn; lia|]. cbn [bc List.length].
+      pose proof (rshape_nil_atom _ Ha) as Na. pose proof (rshape_nil_atom _ Hb) as Nb.
+      rewrite (elem_num _ _ (is_num_not_arr _ Na) (is_num_not_arr _ Nb)). rewrite s2_atom by (apply is_num_not_arr; exact Na).
+      rewrite sright_atom by (apply is_num_not_arr; exact Nb). reflexivity.
+    - destruct (rshape_cons_list _ _ _ Ha) as [la Ea]. destruct (rshape_cons_list _ _ _ Hb) as [lb Eb]. subst a b.
+      destruct (rshape_list _ _ Ha) as [sa [E1 Fa]]. destruct (rshape_list _ _ Hb) as [sb [E2 Fb]].
+      inversion E1. inversion E2. subst sa sb. clear E1 E2.
+      destruct n as [|n']; [cbn in Hn; lia|].
+      cbn [List.length] in *. cbn [bc]. rewrite Nat.ltb_irrefl.
+      assert (EL : (List.length la =? List.length lb)%nat = true) by (apply Nat.eqb_eq; congruence).
+      rewrite EL. rewrite s2_lists. f_equal.
+      apply rzip_ext. intros x y Hx Hy.
+      rewrite Forall_forall in Fa, Fb. apply IH; [apply Fa; exact Hx|apply Fb; exact Hy|lia].
+  Qed.
+
+  Lemma bc_left : forall sh n a b,
+    is_arr a = false -> rshape b = Some sh -> (List.length sh < n)%nat ->
+    bc n elem O (List.length sh) a b = sright g a b.
+  Proof.
+    induction sh as [|d s IH]; intros n a b Na Hb Hn.
+    - destruct n as [|n']; [lia|]. cbn [bc List.length].
+      pose proof (rshape_nil_atom _ Hb) as Nb.
+      rewrite (elem_num _ _ Na (is_num_not_arr _ Nb)). rewrite sright_atom by (apply is_num_not_arr; exact Nb). reflexivity.
+    - destruct (rshape_cons_list _ _ _ Hb) as [lb Eb]. subst b.
+      destruct (rshape_list _ _ Hb) as [sb [E2 Fb]]. inversion E2. subst sb. clear E2.
+      destruct n as [|n']; [lia|]. cbn [List.length] in *. cbn [bc]. rewrite sright_list. f_equal.
+      apply rmap_ext. intros y Hy. rewrite Forall_forall in Fb. apply IH; [exact Na|apply Fb; exact Hy|lia].
+  Qed.
+
+  Lemma bc_right : forall sh n a b,
+    is_arr b = false -> rshape a = Some sh -> (List.length sh < n)%nat ->
+    bc n elem (List.length sh) O a b = s2 g a b.
+  Proof.
+    induction sh as [|d s IH]; intros n a b Nb Ha Hn.
+    - destruct n as [|n']; [lia|]. cbn [bc List.length].
+      pose proof (rshape_nil_atom _ Ha) as Na.
+      rewrite (elem_num _ _ (is_num_not_arr _ Na) Nb). rewrite s2_atom by (apply is_num_not_arr; exact Na).
+      rewrite sright_atom by exact Nb. reflexivity.
+    - destruct (rshape_cons_list _ _ _ Ha) as [la Ea]. subst a.
+      destruct (rshape_list _ _ Ha) as [sa [E2 Fa]]. inversion E2. subst sa. clear E2.
+      destruct n as [|n']; [lia|]. cbn [List.length] in *. cbn [bc].
+      rewrite s2_list_atom by exact Nb. f_equal.
+      apply rmap_ext. intros x Hx. rewrite Forall_forall in Fa. apply IH; [exact Nb|apply Fa; exact Hx|lia].
+  Qed.
+End BC.
+
+(* ------------------------------------------------------------------ facts about depth / leaves *)
+Lemma depth_in : forall l x, In x l -> (depth x < depth (VL l))%nat.
+Proof.
+  intros l x H. cbn [depth]. induction l as [|y l IH]; [destruct H|].
+  cbn [fold_right]. destruct H as [E|H]; [subst; lia|]. specialize (IH H). lia.
+Qed.
+
+Lemma all_leaves_in : forall p l x, all_leaves p (VL l) = true -> In x l -> all_leaves p x = true.
+Proof. intros p l x H Hin. cbn [all_leaves] in H. rewrite forallb_forall in H. apply H. exact Hin. Qed.
+
+Lemma all_leaves_atom : forall p v, is_arr v = false -> all_leaves p v = p v.
+Proof. intros p v H. destruct v; try discriminate; reflexivity. Qed.
+
+Lemma num_tree_cases : forall v, all_leaves is_num v = true -> is_num v = true \/ exists l, v = VL l.
+Proof. intros v H. destruct v; cbn in H; try discriminate; auto. right. eexists; reflexivity. Qed.
+
+Lemma num_tree_not_str : forall v, all_leaves is_num v = true -> is_strlike v = false.
+Proof. intros v H. destruct v; cbn in H; try discriminate; reflexivity. Qed.
+
+Lemma conformable_atom_l : forall a b, is_arr a = false -> conformable a b = true.
+Proof. intros a b H. destruct a; try discriminate; reflexivity. Qed.
+Lemma conformable_atom_r : forall a b, is_arr b = false -> conformable a b = true.
+Proof. intros a b H. destruct a; destruct b; try discriminate; reflexivity. Qed.
+
+Lemma kb_np_atom_l : forall a b, is_arr a = false -> kb_np a b = false.
+Proof. intros a b H. destruct a; try discriminate; reflexivity. Qed.
+
+Lemma is_obj_list : forall l, is_obj (VL l) = true -> rshape (VL l) = None /\ l <> [].
+Proof.
+  intros l H. unfold is_obj, is_rect in H. cbn [is_arr andb] in H.
+  destruct (rshape (VL l)) eqn:E; [discriminate|]. split; [reflexivity|]. intros ->. cbn in E. discriminate.
+Qed.
+
+Lemma not_obj_list : forall l, is_obj (VL l) = false -> exists sh, rshape (VL l) = Some sh.
+Proof.
+  intros l H. unfold is_obj, is_rect in H. cbn [is_arr andb] in H.
+  destruct (rshape (VL l)) eqn:E; [eexists; reflexivity|discriminate].
+Qed.
+
+Lemma is_obj_num : forall v, is_num v = true -> is_obj v = false.
+Proof. destruct v; cbn; intros; try discriminate; reflexivity. Qed.
+
+Lemma npdepth_rect : forall l sh, rshape (VL l) = Some sh -> npdepth (VL l) = List.length sh.
+Proof. intros l sh H. unfold npdepth. rewrite H. reflexivity. Qed.
+Lemma npdepth_obj : forall l, rshape (VL l) = None -> npdepth (VL l) = 1%nat.
+Proof. intros l H. unfold npdepth. rewrite H. reflexivity. Qed.
+Lemma npdepth_num : forall v, is_num v = true -> npdepth v = O.
+Proof. destruct v; cbn; intros; try discriminate; reflexivity. Qed.
+
+Lemma npshape_rect : forall l sh, rshape (VL l) = Some sh -> npshape (VL l) = Some sh.
+Proof. intros l sh H. unfold npshape. rewrite H. reflexivity. Qed.
+Lemma npshape_obj : forall l, rshape (VL l) = None -> npshape (VL l) = Some [List.length l].
+Proof. intros l H. unfold npshape. rewrite H. reflexivity. Qed.
+
+Lemma all_pairs_atom_l : forall p a b, is_arr a = false -> all_pairs p a b = all_right p a b.
+Proof. intros p a b H. destruct a; try discriminate; reflexivity. Qed.
+Lemma all_right_list : forall p a lb, lb <> [] -> all_right p a (VL lb) = forallb (all_right p a) lb.
+Proof. intros p a lb H. destruct lb; [congruence|reflexivity]. Qed.
+Lemma all_right_atom : forall p a b, is_arr b = false -> all_right p a b = p a b.
+Proof. intros p a b H. destruct b; try discriminate; reflexivity. Qed.
+Lemma all_pairs_list_atom : forall p la b, is_arr b = false -> la <> [] ->
+  all_pairs p (VL la) b = forallb (fun x => all_pairs p x b) la.
+Proof. intros p la b H Hn. destruct b; try discriminate; destruct la; try congruence; reflexivity. Qed.
+Lemma all_pairs_atoms : forall p a b, is_arr a = false -> is_arr b = false -> all_pairs p a b = p a b.
+Proof. intros. rewrite all_pairs_atom_l by assumption. apply all_right_atom. assumption. Qed.
+
+Lemma is_rect_list : forall l, is_rect (VL l) = true -> exists sh, rshape (VL l) = Some sh.
+Proof. intros l H. unfold is_rect in H. destruct (rshape (VL l)); [eexists; reflexivity|discriminate]. Qed.
+Lemma is_rect_of_shape : forall l sh, rshape (VL l) = Some sh -> is_rect (VL l) = true.
+Proof. intros l sh H. unfold is_rect. rewrite H. reflexivity. Qed.
+Lemma is_obj_of_none : forall l, rshape (VL l) = None -> is_obj (VL l) = true.
+Proof. intros l H. unfold is_obj, is_rect. rewrite H. reflexivity. Qed.
+Lemma is_obj_of_shape : forall l sh, rshape (VL l) = Some sh -> is_obj (VL l) = false.
+Proof. intros l sh H. unfold is_obj, is_rect. rewrite H. reflexivity. Qed.
+
+Lemma num_not_arr_cases : forall y, all_leaves is_num y = true -> is_arr y = false -> is_num y = true.
+Proof. intros y H Ha. destruct (num_tree_cases y H) as [|[l ->]]; [assumption|discriminate]. Qed.
+
+Lemma kb_np_list_atom_eq : forall la b, is_arr b = false ->
+  kb_np (VL la) b = if is_rect (VL la) then false else existsb (fun x => kb_np x b) la.
+Proof. intros la b H. destruct b; try discriminate; reflexivity. Qed.
+
+Lemma kb_np_list_atom : forall la b, is_arr b = false -> rshape (VL la) = None -> kb_np (VL la) b = false ->
+  forall x, In x la -> kb_np x b = false.
+Proof.
+  intros la b Hb Ra Hk x Hx. rewrite kb_np_list_atom_eq in Hk by exact Hb.
+  unfold is_rect in Hk. rewrite Ra in Hk.
+  destruct (kb_np x b) eqn:Ek; [|reflexivity].
+  assert (Hex : existsb (fun x0 => kb_np x0 b) la = true) by (apply existsb_exists; exists x; split; assumption).
+  rewrite Hex in Hk. discriminate.
+Qed.
+
+(* ------------------------------------------------------------------ T1.atomic for verbs that call a NumPy ufunc directly *)
+Section NP2.
+  Variables sf sfpy : val -> val -> res.
+  Variable okb : val -> bool.
+  Hypothesis Hpy : forall x y, okb y = true -> sfpy x y = sf x y.
+
+  Definition E (fuel' : nat) (a b : val) : val -> val -> res := fun x y =>
+     if is_arr x || is_arr y then np2 fuel' ObjRec sf sfpy x y
+     else if is_obj a || is_obj b then sfpy x y else sf x y.
+
+  Lemma np2_unfold : forall fuel' a b, is_strlike a = false -> is_strlike b = false ->
+    np2 (S fuel') ObjRec sf sfpy a b = bcast (E fuel' a b) (npdepth a) (npdepth b) a b.
+  Proof. intros fuel' a b Ha Hb. cbn [np2]. rewrite andb_false_r. rewrite Ha, Hb. reflexivity. Qed.
+
+  Lemma E_nums : forall fuel' a b, is_obj a = false -> is_obj b = false ->
+    forall x y, is_arr x = false -> is_arr y = false -> E fuel' a b x y = sf x y.
+  Proof.
+    intros fuel' a b Oa Ob x y Nx Ny. unfold E. rewrite Nx, Ny, Oa, Ob. reflexivity.
+  Qed.
+
+  Theorem np2_rec_spec : forall fuel a b,
+    (depth a + depth b < fuel)%nat ->
+    all_leaves is_num a = true -> all_leaves is_num b = true ->
+    conformable a b = true -> kb_np a b = false -> all_leaves okb b = true ->
+    np2 fuel ObjRec sf sfpy a b = s2 sf a b.
+  Proof.
+    induction fuel as [|fuel' IH]; intros a b Hd Na Nb Hc Hk Hp; [lia|].
+    rewrite np2_unfold by (apply num_tree_not_str; assumption).
+    unfold bcast.
+    destruct (num_tree_cases a Na) as [An|[la ->]]; destruct (num_tree_cases b Nb) as [Bn|[lb ->]].
+    - (* atom, atom *)
+      rewrite (npdepth_num a An), (npdepth_num b Bn). cbn [bc Nat.add].
+      rewrite (E_nums fuel' a b (is_obj_num a An) (is_obj_num b Bn) a b (is_num_not_arr a An) (is_num_not_arr b Bn)).
+      rewrite s2_atom by (apply is_num_not_arr; exact An).
+      rewrite sright_atom by (apply is_num_not_arr; exact Bn). reflexivity.
+    - (* atom, list *)
+      pose proof (is_num_not_arr a An) as Aa.
+      rewrite (npdepth_num a An). rewrite s2_atom by exact Aa.
+      destruct (rshape (VL lb)) as [sh|] eqn:Rb.
+      + rewrite (npdepth_rect _ _ Rb).
+        apply (bc_left (E fuel' a (VL lb)) sf (E_nums fuel' a (VL lb) (is_obj_num a An) (is_obj_of_shape _ _ Rb)) sh).
+        * exact Aa.
+        * exact Rb.
+        * cbn. lia.
+      + pose proof (is_obj_of_none _ Rb) as Ob. destruct (is_obj_list _ Ob) as [_ Nel].
+        rewrite (npdepth_obj _ Rb). cbn [bc Nat.add]. rewrite sright_list. f_equal.
+        apply rmap_ext. intros y Hy. pose proof (all_leaves_in _ _ _ Hp Hy) as Hpy'.
+        pose proof (all_leaves_in _ _ _ Nb Hy) as Ny. pose proof (depth_in _ _ Hy) as Dy.
+        unfold E. rewrite Aa, (is_obj_num a An), Ob. cbn [orb].
+        destruct (is_arr y) eqn:Ay.
+        * rewrite IH.
+          -- apply s2_atom. exact Aa.
+          -- lia.
+          -- exact Na.
+          -- exact Ny.
+          -- apply conformable_atom_l. exact Aa.
+          -- apply kb_np_atom_l. exact Aa.
+          -- exact Hpy'.
+        * rewrite sright_atom by exact Ay. apply Hpy.
+          rewrite <- (all_leaves_atom okb y Ay). exact Hpy'.
+    - (* list, atom *)
+      pose proof (is_num_not_arr b Bn) as Ab.
+      rewrite (npdepth_num b Bn).
+      destruct (rshape (VL la)) as [sh|] eqn:Ra.
+      + rewrite (npdepth_rect _ _ Ra). rewrite Nat.add_0_r.
+        apply (bc_right (E fuel' (VL la) b) sf (E_nums fuel' (VL la) b (is_obj_of_shape _ _ Ra) (is_obj_num b Bn)) sh).
+        * exact Ab.
+        * exact Ra.
+        * lia.
+      + pose proof (is_obj_of_none _ Ra) as Oa. destruct (is_obj_list _ Oa) as [_ Nel].
+        rewrite (npdepth_obj _ Ra). cbn [bc Nat.add]. rewrite s2_list_atom by exact Ab. f_equal.
+        assert (Hk' : forall x, In x la -> kb_np x b = false) by (apply kb_np_list_atom; assumption).
+        apply rmap_ext. intros x Hx.
+        pose proof (all_leaves_in _ _ _ Na Hx) as Nx. pose proof (depth_in _ _ Hx) as Dx.
+        unfold E. rewrite Ab, Oa. rewrite orb_false_r. cbn [orb].
+        destruct (is_arr x) eqn:Ax.
+        * rewrite IH; [reflexivity|lia|exact Nx|exact Nb|apply conformable_atom_r; exact Ab|apply Hk'; exact Hx|exact Hp].
+        * rewrite s2_atom by exact Ax. rewrite sright_atom by exact Ab. apply Hpy.
+          rewrite <- (all_leaves_atom okb b Ab). exact Hp.
+    - (* list, list *)
+      cbn [kb_np] in Hk.
+      destruct (shape_eqb (npshape (VL la)) (npshape (VL lb))) eqn:Hs; [|discriminate].
+      apply shape_eqb_true in Hs. destruct Hs as [sh [Sa Sb]].
+      destruct (conformable_lists _ _ Hc) as [Hlen Hconf].
+      destruct (is_rect (VL la) && is_rect (VL lb)) eqn:Hr.
+      + apply andb_true_iff in Hr. destruct Hr as [R1 R2].
+        destruct (is_rect_list _ R1) as [s1 Ra]. destruct (is_rect_list _ R2) as [s2' Rb].
+        rewrite (npshape_rect _ _ Ra) in Sa. rewrite (npshape_rect _ _ Rb) in Sb.
+        inversion Sa. inversion Sb. subst s1 s2'.
+        rewrite (npdepth_rect _ _ Ra), (npdepth_rect _ _ Rb).
+        apply (bc_same (E fuel' (VL la) (VL lb)) sf (E_nums fuel' (VL la) (VL lb) (is_obj_of_shape _ _ Ra) (is_obj_of_shape _ _ Rb)) sh);
+          [exact Ra|exact Rb|lia].
+      + assert (Hfacts : npdepth (VL la) = 1%nat /\ npdepth (VL lb) = 1%nat /\ (is_obj (VL la) || is_obj (VL lb)) = true).
+        { destruct (rshape (VL la)) as [s1|] eqn:Ra; destruct (rshape (VL lb)) as [s2'|] eqn:Rb.
+          - rewrite (is_rect_of_shape _ _ Ra), (is_rect_of_shape _ _ Rb) in Hr. discriminate.
+          - rewrite (npshape_rect _ _ Ra) in Sa. rewrite (npshape_obj _ Rb) in Sb. inversion Sa. inversion Sb. subst.
+            rewrite (npdepth_rect _ _ Ra), (npdepth_obj _ Rb), (is_obj_of_none _ Rb). rewrite orb_true_r. auto.
+          - rewrite (npshape_obj _ Ra) in Sa. rewrite (npshape_rect _ _ Rb) in Sb. inversion Sa. inversion Sb. subst.
+            rewrite (npdepth_obj _ Ra), (npdepth_rect _ _ Rb), (is_obj_of_none _ Ra). auto.
+          - rewrite (npdepth_obj _ Ra), (npdepth_obj _ Rb), (is_obj_of_none _ Ra). auto. }
+        destruct Hfacts as [Da [Db Hobj]]. rewrite Da, Db. cbn [bc Nat.add Nat.ltb Nat.leb].
+        apply Nat.eqb_eq in Hlen. rewrite Hlen. rewrite s2_lists. f_equal.
+        apply rzip_ext_combine. intros x y Hin.
+        destruct (in_combine_both _ _ _ _ Hin) as [Hx Hy].
+        pose proof (all_leaves_in _ _ _ Na Hx) as Nx. pose proof (all_leaves_in _ _ _ Nb Hy) as Ny.
+        pose proof (depth_in _ _ Hx) as Dx. pose proof (depth_in _ _ Hy) as Dy.
+        pose proof (all_leaves_in _ _ _ Hp Hy) as Hpxy.
+        unfold E. rewrite Hobj.
+        destruct (is_arr x || is_arr y) eqn:Axy.
+        * apply IH; [lia|exact Nx|exact Ny|apply Hconf; exact Hin|eapply any2_combine; eassumption|exact Hpxy].
+        * apply orb_false_iff in Axy. destruct Axy as [Ax Ay].
+          rewrite s2_atom by exact Ax. rewrite sright_atom by exact Ay. apply Hpy.
+          rewrite <- (all_leaves_atom okb y Ay). exact Hpxy.
+  Qed.
+End NP2.
+
+(* any ufunc (also those without an object loop) on operands that are numbers or rectangular numeric arrays *)
+Section NP2Rect.
+  Variables (mode : objmode) (sf sfpy : val -> val -> res).
+
+  Definition EM (fuel' : nat) (a b : val) : val -> val -> res := fun x y =>
+     if is_arr x || is_arr y then
+       match mode with
+       | ObjRec => np2 fuel' mode sf sfpy x y
+       | ObjCmp => if (array_size x =? 1) && (array_size y =? 1) then Unmod else Err
+       | ObjNone => Err
+       end
+     else if is_obj a || is_obj b then sfpy x y else sf x y.
+
+  Lemma EM_nums : forall fuel' a b, is_obj a = false -> is_obj b = false ->
+    forall x y, is_arr x = false -> is_arr y = false -> EM fuel' a b x y = sf x y.
+  Proof.
+    intros fuel' a b Oa Ob x y Nx Ny. unfold EM. rewrite Nx, Ny, Oa, Ob. reflexivity.
+  Qed.
+
+  Theorem np2_rect_spec : forall fuel' a b,
+    is_obj a = false -> is_obj b = false ->
+    all_leaves is_num a = true -> all_leaves is_num b = true ->
+    kb_np a b = false ->
+    np2 (S fuel') mode sf sfpy a b = s2 sf a b.
+  Proof.
+    intros fuel' a b Oa Ob Na Nb Hk.
+    assert (U : np2 (S fuel') mode sf sfpy a b = bcast (EM fuel' a b) (npdepth a) (npdepth b) a b).
+    { cbn [np2].
+      assert (T : ((is_obj a || is_obj b) && match mode with ObjNone => true | _ => false end) = false)
+        by (rewrite Oa, Ob; reflexivity).
+      rewrite T. rewrite (num_tree_not_str a Na), (num_tree_not_str b Nb). reflexivity. }
+    rewrite U. unfold bcast.
+    destruct (num_tree_cases a Na) as [An|[la ->]]; destruct (num_tree_cases b Nb) as [Bn|[lb ->]].
+    - rewrite (npdepth_num a An), (npdepth_num b Bn). cbn [bc Nat.add].
+      rewrite (EM_nums fuel' a b Oa Ob a b (is_num_not_arr a An) (is_num_not_arr b Bn)).
+      rewrite s2_atom by (apply is_num_not_arr; exact An).
+      rewrite sright_atom by (apply is_num_not_arr; exact Bn). reflexivity.
+    - destruct (not_obj_list _ Ob) as [sh Rb].
+      rewrite (npdepth_num a An), (npdepth_rect _ _ Rb). rewrite s2_atom by (apply is_num_not_arr; exact An).
+      apply (bc_left (EM fuel' a (VL lb)) sf (EM_nums fuel' a (VL lb) Oa Ob) sh); [apply is_num_not_arr; exact An|exact Rb|cbn; lia].
+    - destruct (not_obj_list _ Oa) as [sh Ra].
+      rewrite (npdepth_num b Bn), (npdepth_rect _ _ Ra). rewrite Nat.add_0_r.
+      apply (bc_right (EM fuel' (VL la) b) sf (EM_nums fuel' (VL la) b Oa Ob) sh); [apply is_num_not_arr; exact Bn|exact Ra|lia].
+    - destruct (not_obj_list _ Oa) as [s1 Ra]. destruct (not_obj_list _ Ob) as [s2' Rb].
+      cbn [kb_np] in Hk. rewrite (npshape_rect _ _ Ra), (npshape_rect _ _ Rb) in Hk.
+      destruct (shape_eqb (Some s1) (Some s2')) eqn:Hs; [|discriminate].
+      apply shape_eqb_true in Hs. destruct Hs as [sh [Sa Sb]]. inversion Sa. inversion Sb. subst s1 s2'.
+      rewrite (npdepth_rect _ _ Ra), (npdepth_rect _ _ Rb).
+      apply (bc_same (EM fuel' (VL la) (VL lb)) sf (EM_nums fuel' (VL la) (VL lb) Oa Ob) sh); [exact Ra|exact Rb|lia].
+  Qed.
+End NP2Rect.
+
+(* ------------------------------------------------------------------ norm *)
+Lemma map_fix : forall {A} (f : A -> A) l, map f l = l -> Forall (fun x => f x = x) l.
+Proof. induction l as [|x l IH]; cbn; intros H; [constructor|]. injection H as H1 H2. constructor; [exact H1|]. apply IH. exact H2. Qed.
+
+Lemma norm_rect_elem : forall y s, rshape y = Some s -> (has_real y = false \/ to_real y = y) -> norm y = y.
+Proof.
+  intros y s Hs H. destruct y as [z|r|c|t|t|l|]; try reflexivity.
+  cbn [norm]. rewrite (is_rect_of_shape _ _ Hs). destruct (has_real (VL l)) eqn:Hr; [|reflexivity].
+  destruct H as [H|H]; [discriminate|exact H].
+Qed.
+
+Lemma norm_fix_elems : forall l, norm (VL l) = VL l -> Forall (fun x => norm x = x) l.
+Proof.
+  intros l H. cbn [norm] in H. destruct (is_rect (VL l)) eqn:Hr.
+  - destruct (is_rect_list _ Hr) as [sh Rs]. destruct (rshape_list _ _ Rs) as [s [_ Fs]].
+    rewrite Forall_forall in Fs. apply Forall_forall. intros y Hy.
+    apply (norm_rect_elem y s (Fs y Hy)).
+    destruct (has_real (VL l)) eqn:Hreal.
+    + right. cbn [to_real] in H. injection H as H'.
+      pose proof (map_fix _ _ H') as F. rewrite Forall_forall in F. apply F. exact Hy.
+    + left. cbn [has_real] in Hreal. destruct (has_real y) eqn:E; [|reflexivity].
+      assert (X : existsb has_real l = true) by (apply existsb_exists; exists y; split; assumption).
+      rewrite X in Hreal. discriminate.
+  - injection H as H'. apply map_fix. exact H'.
+Qed.
+
+Lemma okl_inv : forall r v, okl r = Ok v -> exists vs, r = Ok vs /\ v = VL vs.
+Proof. intros [vs| | |] v H; cbn in H; try discriminate. inversion H. eexists; split; reflexivity. Qed.
+
+Lemma rzip_transfer : forall (P : val -> Prop) (f g : val -> val -> res) la lb vs,
+  (forall x y v, In (x, y) (combine la lb) -> f x y = Ok v -> P v -> g x y = Ok v) ->
+  rzip f la lb = Ok vs -> Forall P vs -> rzip g la lb = Ok vs.
+Proof.
+  intros P f g. induction la as [|x la IH]; intros lb vs H Hz HP; destruct lb as [|y lb]; cbn [rzip] in *; try discriminate.
+  - exact Hz.
+  - destruct (f x y) as [v| | |] eqn:Ef; cbn [bind] in Hz; try discriminate.
+    destruct (rzip f la lb) as [vs'| | |] eqn:Er; cbn [bind] in Hz; try discriminate.
+    inversion Hz. subst vs. inversion HP as [|? ? Pv Pvs]. subst.
+    rewrite (H x y v (or_introl eq_refl) Ef Pv). cbn [bind].
+    rewrite (IH lb vs'); [reflexivity| |exact Er|exact Pvs].
+    intros x' y' v' Hin. apply H. right. exact Hin.
+Qed.
+
+Lemma rmap_transfer : forall (P : val -> Prop) (f g : val -> res) l vs,
+  (forall x v, In x l -> f x = Ok v -> P v -> g x = Ok v) ->
+  rmap f l = Ok vs -> Forall P vs -> rmap g l = Ok vs.
+Proof.
+  intros P f g. induction l as [|x l IH]; intros vs H Hz HP; cbn [rmap] in *.
+  - exact Hz.
+  - destruct (f x) as [v| | |] eqn:Ef; cbn [bind] in Hz; try discriminate.
+    destruct (rmap f l) as [vs'| | |] eqn:Er; cbn [bind] in Hz; try discriminate.
+    inversion Hz. subst vs. inversion HP as [|? ? Pv Pvs]. subst.
+    rewrite (H x v (or_introl eq_refl) Ef Pv). cbn [bind].
+    rewrite (IH vs'); [reflexivity| |reflexivity|exact Pvs].
+    intros x' v' Hin. apply H. right. exact Hin.
+Qed.
+
+(* ------------------------------------------------------------------ T1.atomic for verbs routed through vec_fn2 *)
+Lemma is_arr_true : forall v, is_arr v = true -> exists l, v = VL l.
+Proof. destruct v; cbn; intros; try discriminate. eexists; reflexivity. Qed.
+
+Lemma is_obj_negb : forall l, is_obj (VL l) = negb (is_rect (VL l)).
+Proof. reflexivity. Qed.
+
+Lemma rdepth_rect : forall l sh, rshape (VL l) = Some sh -> rdepth (VL l) = List.length sh.
+Proof. intros l sh H. unfold rdepth. rewrite H. reflexivity. Qed.
+Lemma rdepth_atom : forall v, is_arr v = false -> rdepth v = O.
+Proof. destruct v; cbn; intros; try discriminate; reflexivity. Qed.
+
+Section VEC2.
+  Variable sf : val -> val -> res.
+  Let leaf := leaf2 sf.
+
+  Lemma vec2_LL : forall f' la lb, vec2 (S f') leaf (VL la) (VL lb) =
+    if is_obj (VL la) || is_obj (VL lb)
+    then bind (rzip (vec2 f' leaf) la lb) (fun l => Ok (norm (VL l))) else leaf (VL la) (VL lb).
+  Proof. reflexivity. Qed.
+  Lemma vec2_LA : forall f' la b, is_arr b = false -> vec2 (S f') leaf (VL la) b =
+    if is_obj (VL la) then bind (rmap (fun x => vec2 f' leaf x b) la) (fun l => Ok (norm (VL l))) else leaf (VL la) b.
+  Proof. intros f' la b H. destruct b; try discriminate; reflexivity. Qed.
+  Lemma vec2_AL : forall f' a lb, is_arr a = false -> vec2 (S f') leaf a (VL lb) =
+    if is_obj (VL lb) then bind (rmap (fun y => vec2 f' leaf a y) lb) (fun l => Ok (norm (VL l))) else leaf a (VL lb).
+  Proof. intros f' a lb H. destruct a; try discriminate; reflexivity. Qed.
+  Lemma vec2_AA : forall f' a b, is_arr a = false -> is_arr b = false -> vec2 (S f') leaf a b = leaf a b.
+  Proof. intros f' a b Ha Hb. destruct a; try discriminate; destruct b; try discriminate; reflexivity. Qed.
+
+  Lemma sf_atoms : forall x y : val, is_arr x = false -> is_arr y = false -> sf x y = sf x y.
+  Proof. reflexivity. Qed.
+
+  Lemma kb_vec_atom_l : forall a b, is_arr a = false -> kb_vec a b = false.
+  Proof. intros a b H. destruct a; try discriminate; reflexivity. Qed.
+  Lemma kb_vec_list_atom_eq : forall la b, is_arr b = false ->
+    kb_vec (VL la) b = if is_rect (VL la) then false else existsb (fun x => kb_vec x b) la.
+  Proof. intros la b H. destruct b; try discriminate; reflexivity. Qed.
+
+  Theorem vec2_spec : forall fuel a b v,
+    (depth a + depth b < fuel)%nat ->
+    conformable a b = true -> kb_vec a b = false ->
+    s2 sf a b = Ok v -> norm v = v ->
+    vec2 fuel leaf a b = Ok v.
+  Proof.
+    induction fuel as [|f' IH]; intros a b v Hd Hc Hk Hs Hn; [lia|].
+    destruct (is_arr a) eqn:Aa; destruct (is_arr b) eqn:Ab.
+    - destruct (is_arr_true _ Aa) as [la ->]. destruct (is_arr_true _ Ab) as [lb ->].
+      rewrite vec2_LL. cbn [kb_vec] in Hk.
+      destruct (conformable_lists _ _ Hc) as [Hlen Hconf].
+      destruct (is_obj (VL la) || is_obj (VL lb)) eqn:Ho.
+      + assert (Hr : is_rect (VL la) && is_rect (VL lb) = false).
+        { rewrite !is_obj_negb in Ho. destruct (is_rect (VL la)); destruct (is_rect (VL lb)); cbn in *; congruence. }
+        rewrite Hr in Hk. rewrite s2_lists in Hs. destruct (okl_inv _ _ Hs) as [vs [Hz ->]].
+        pose proof (norm_fix_elems _ Hn) as Fn.
+        rewrite (rzip_transfer (fun x => norm x = x) (s2 sf) (vec2 f' leaf) la lb vs); [cbn [bind]; rewrite Hn; reflexivity| |exact Hz|exact Fn].
+        intros x y v' Hin Hv Pv. destruct (in_combine_both _ _ _ _ Hin) as [Hx Hy].
+        pose proof (depth_in _ _ Hx). pose proof (depth_in _ _ Hy).
+        apply IH; [lia|apply Hconf; exact Hin|eapply any2_combine; eassumption|exact Hv|exact Pv].
+      + apply orb_false_iff in Ho. destruct Ho as [Oa Ob].
+        destruct (not_obj_list _ Oa) as [s1 Ra]. destruct (not_obj_list _ Ob) as [s2' Rb].
+        rewrite (is_rect_of_shape _ _ Ra), (is_rect_of_shape _ _ Rb) in Hk. cbn [andb] in Hk.
+        apply negb_false_iff in Hk. rewrite Ra, Rb in Hk. apply shape_eqb_true in Hk.
+        destruct Hk as [sh [Sa Sb]]. inversion Sa. inversion Sb. subst s1 s2'.
+        unfold leaf, leaf2, bcast. rewrite (rdepth_rect _ _ Ra), (rdepth_rect _ _ Rb).
+        rewrite (bc_same sf sf sf_atoms sh); [exact Hs|exact Ra|exact Rb|lia].
+    - destruct (is_arr_true _ Aa) as [la ->]. rewrite vec2_LA by exact Ab.
+      rewrite kb_vec_list_atom_eq in Hk by exact Ab.
+      destruct (is_obj (VL la)) eqn:Oa.
+      + rewrite is_obj_negb in Oa. apply negb_true_iff in Oa. rewrite Oa in Hk.
+        rewrite s2_list_atom in Hs by exact Ab. destruct (okl_inv _ _ Hs) as [vs [Hz ->]].
+        pose proof (norm_fix_elems _ Hn) as Fn.
+        rewrite (rmap_transfer (fun x => norm x = x) (fun x => s2 sf x b) (fun x => vec2 f' leaf x b) la vs);
+          [cbn [bind]; rewrite Hn; reflexivity| |exact Hz|exact Fn].
+        intros x v' Hx Hv Pv. pose proof (depth_in _ _ Hx).
+        apply IH; [lia|apply conformable_atom_r; exact Ab| |exact Hv|exact Pv].
+        destruct (kb_vec x b) eqn:Ek; [|reflexivity].
+        assert (X : existsb (fun x0 => kb_vec x0 b) la = true) by (apply existsb_exists; exists x; split; assumption).
+        rewrite X in Hk. discriminate.
+      + destruct (not_obj_list _ Oa) as [sh Ra].
+        unfold leaf, leaf2, bcast. rewrite (rdepth_rect _ _ Ra), (rdepth_atom _ Ab). rewrite Nat.add_0_r.
+        rewrite (bc_right sf sf sf_atoms sh); [exact Hs|exact Ab|exact Ra|lia].
+    - destruct (is_arr_true _ Ab) as [lb ->]. rewrite vec2_AL by exact Aa.
+      rewrite s2_atom in Hs by exact Aa.
+      destruct (is_obj (VL lb)) eqn:Ob.
+      + rewrite sright_list in Hs. destruct (okl_inv _ _ Hs) as [vs [Hz ->]].
+        pose proof (norm_fix_elems _ Hn) as Fn.
+        rewrite (rmap_transfer (fun x => norm x = x) (sright sf a) (fun y => vec2 f' leaf a y) lb vs);
+          [cbn [bind]; rewrite Hn; reflexivity| |exact Hz|exact Fn].
+        intros y v' Hy Hv Pv. pose proof (depth_in _ _ Hy).
+        apply IH; [lia|apply conformable_atom_l; exact Aa|apply kb_vec_atom_l; exact Aa| |exact Pv].
+        rewrite s2_atom by exact Aa. exact Hv.
+      + destruct (not_obj_list _ Ob) as [sh Rb].
+        unfold leaf, leaf2, bcast. rewrite (rdepth_rect _ _ Rb), (rdepth_atom _ Aa). cbn [Nat.add].
+        rewrite (bc_left sf sf sf_atoms sh); [exact Hs|exact Aa|exact Rb|lia].
+    - rewrite vec2_AA by assumption. unfold leaf, leaf2, bcast.
+      rewrite (rdepth_atom _ Aa), (rdepth_atom _ Ab). cbn [bc Nat.add].
+      rewrite s2_atom in Hs by exact Aa. rewrite sright_atom in Hs by exact Ab. exact Hs.
+  Qed.
+End VEC2.
+
+(* ------------------------------------------------------------------ list specs by index *)
+Section ListLemmas.
+  Context {A : Type} (d : A).
+
+  Lemma tab_length : forall n (f : Z -> A), List.length (tab n f) = Z.to_nat n.
+  Proof. intros. unfold tab. rewrite map_length, seq_length. reflexivity. Qed.
+
+  Lemma tab_nth : forall n (f : Z -> A) i, (i < Z.to_nat n)%nat -> nth i (tab n f) d = f (Z.of_nat i).
+  Proof.
+    intros n f i H. unfold tab.
+    rewrite (nth_indep _ d (f (Z.of_nat 0))) by (rewrite map_length, seq_length; exact H).
+    rewrite (map_nth (fun i => f (Z.of_nat i)) (seq 0 (Z.to_nat n)) 0%nat i).
+    rewrite seq_nth by exact H. reflexivity.
+  Qed.
+
+  Lemma eq_tab : forall (l : list A) n (f : Z -> A),
+    List.length l = Z.to_nat n -> (forall i, (i < List.length l)%nat -> nth i l d = f (Z.of_nat i)) -> l = tab n f.
+  Proof.
+    intros l n f HL H. apply (nth_ext l (tab n f) d d).
+    - rewrite tab_length. exact HL.
+    - intros i Hi. rewrite tab_nth by lia. apply H. exact Hi.
+  Qed.
+
+  Lemma nth_skipn' : forall k (l : list A) i, nth i (skipn k l) d = nth (k + i) l d.
+  Proof.
+    induction k as [|k IH]; intros l i; [reflexivity|].
+    destruct l as [|x l]; [destruct i; reflexivity|]. cbn [skipn Nat.add nth]. apply IH.
+  Qed.
+
+  Lemma nth_firstn' : forall k (l : list A) i, (i < k)%nat -> nth i (firstn k l) d = nth i l d.
+  Proof.
+    induction k as [|k IH]; intros l i H; [lia|].
+    destruct l as [|x l]; [reflexivity|]. destruct i as [|i]; [reflexivity|]. cbn [firstn nth]. apply IH. lia.
+  Qed.
+
+  (* Drop *)
+  Lemma drop_front : forall n (l : list A), 0 <= n ->
+    skipn (Z.to_nat n) l = tab (zlen l - n) (fun i => ix d l (i + n)).
+  Proof.
+    intros n l Hn. apply eq_tab.
+    - rewrite skipn_length. unfold zlen. lia.
+    - intros i Hi. rewrite nth_skipn'. unfold ix. f_equal. lia.
+  Qed.
+
+  Lemma drop_back : forall n (l : list A), n < 0 ->
+    firstn (Z.to_nat (zlen l + n)) l = tab (zlen l + n) (fun i => ix d l i).
+  Proof.
+    intros n l Hn. apply eq_tab.
+    - rewrite firstn_length. unfold zlen. lia.
+    - intros i Hi. rewrite firstn_length in Hi. rewrite nth_firstn' by lia. unfold ix. f_equal. lia.
+  Qed.
+
+  (* Reverse *)
+  Lemma reverse_spec : forall (l : list A), rev l = s_reverse d l.
+  Proof.
+    intros l. unfold s_reverse. apply eq_tab.
+    - rewrite rev_length. unfold zlen. lia.
+    - intros i Hi. rewrite rev_length in Hi. rewrite rev_nth by exact Hi. unfold ix, zlen. f_equal. lia.
+  Qed.
+
+  (* Rotate: np.roll of a 1-D array *)
+  Lemma roll_spec : forall n (l : list A), l <> [] ->
+    let k := Z.to_nat (n mod zlen l) in
+    let m := (List.length l - k)%nat in
+    skipn m l ++ firstn m l = s_rotate d n l.
+  Proof.
+    intros n l Hne k m. unfold s_rotate.
+    assert (HL : 0 < zlen l) by (unfold zlen; destruct l; [congruence|cbn; lia]).
+    replace (zlen l =? 0) with false by (symmetry; apply Z.eqb_neq; lia).
+    pose proof (Z.mod_pos_bound n (zlen l) HL) as Hb.
+    assert (Hk : (k < List.length l)%nat) by (unfold k, zlen in *; lia).
+    apply eq_tab.
+    - rewrite app_length, skipn_length, firstn_length. unfold zlen, m. lia.
+    - intros i Hi. rewrite app_length, skipn_length, firstn_length in Hi.
+      unfold ix.
+      destruct (Nat.ltb i k) eqn:Hik.
+      + apply Nat.ltb_lt in Hik. rewrite app_nth1 by (rewrite skipn_length; unfold m; lia).
+        rewrite nth_skipn'. f_equal.
+        assert (E : (Z.of_nat i - n) mod zlen l = Z.of_nat i - n mod zlen l + zlen l).
+        { symmetry. apply (Z.mod_unique_pos _ _ (- (n / zlen l) - 1)); [unfold k in Hik; lia|].
+          pose proof (Z.div_mod n (zlen l)). lia. }
+        rewrite E. unfold m, k, zlen in *. lia.
+      + apply Nat.ltb_ge in Hik. rewrite app_nth2 by (rewrite skipn_length; unfold m; lia).
+        rewrite skipn_length. rewrite nth_firstn' by (unfold m; lia). f_equal.
+        assert (E : (Z.of_nat i - n) mod zlen l = Z.of_nat i - n mod zlen l).
+        { symmetry. apply (Z.mod_unique_pos _ _ (- (n / zlen l))); [unfold k, m, zlen in *; lia|].
+          pose proof (Z.div_mod n (zlen l)). lia. }
+        rewrite E. unfold m, k, zlen in *. lia.
+  Qed.
+End ListLemmas.
+
+(* ------------------------------------------------------------------ cyclic reading: Q s c  <->  c reads l cyclically from offset s *)
+Section Cyclic.
+  Context {A : Type} (d : A) (l : list A).
+  Hypothesis Lpos : 0 < zlen l.
+
+  Definition Q (s : Z) (c : list A) : Prop :=
+    forall j, (j < List.length c)%nat -> nth j c d = ix d l ((Z.of_nat j + s) mod zlen l).
+
+  Lemma Q_base : Q 0 l.
+  Proof.
+    intros j Hj. unfold ix. rewrite Z.add_0_r. rewrite Z.mod_small by (unfold zlen; lia).
+    rewrite Nat2Z.id. reflexivity.
+  Qed.
+
+  Lemma Q_shift : forall s k c, Q s c -> Q (s + k * zlen l) c.
+  Proof.
+    intros s k c H j Hj. rewrite (H j Hj). f_equal.
+    rewrite Z.add_assoc. rewrite Z_mod_plus_full. reflexivity.
+  Qed.
+
+  Lemma Q_cong : forall s s' k c, s' = s + k * zlen l -> Q s c -> Q s' c.
+  Proof. intros s s' k c -> H. apply Q_shift. exact H. Qed.
+
+  Lemma Q_app : forall s c1 c2, Q s c1 -> Q (s + zlen c1) c2 -> Q s (c1 ++ c2).
+  Proof.
+    intros s c1 c2 H1 H2 j Hj. rewrite app_length in Hj.
+    destruct (Nat.ltb j (List.length c1)) eqn:E.
+    - apply Nat.ltb_lt in E. rewrite app_nth1 by exact E. apply H1. exact E.
+    - apply Nat.ltb_ge in E. rewrite app_nth2 by exact E. rewrite H2 by lia. f_equal. f_equal. unfold zlen. lia.
+  Qed.
+
+  Lemma Q_skipn : forall s m c, Q s c -> Q (s + Z.of_nat m) (skipn m c).
+  Proof.
+    intros s m c H j Hj. rewrite skipn_length in Hj. rewrite nth_skipn'. rewrite H by lia. f_equal. f_equal. lia.
+  Qed.
+
+  Lemma Q_firstn : forall s m c, Q s c -> Q s (firstn m c).
+  Proof.
+    intros s m c H j Hj. rewrite firstn_length in Hj. rewrite nth_firstn' by lia. apply H. lia.
+  Qed.
+
+  Lemma tile_length : forall k (c : list val), List.length (tile k c) = (k * List.length c)%nat.
+  Proof. induction k as [|k IH]; intros c; cbn [tile]; [reflexivity|]. rewrite app_length, IH. lia. Qed.
+
+  Lemma Q_final : forall s c k, Q s c -> List.length c = Z.to_nat k ->
+    c = tab k (fun i => ix d l ((i + s) mod zlen l)).
+  Proof. intros s c k H HL. apply (eq_tab d); [exact HL|]. intros i Hi. apply H. exact Hi. Qed.
+End Cyclic.
+
+Lemma Q_tile : forall (l : list val), 0 < zlen l -> forall k, Q VU l 0 (tile k l).
+Proof.
+  intros l Lpos. induction k as [|k IH]; cbn [tile].
+  - intros j Hj. cbn in Hj. lia.
+  - apply Q_app; [apply Q_base; exact Lpos|].
+    replace (0 + zlen l) with (0 + 1 * zlen l) by lia. apply Q_shift. exact IH.
+Qed.
+
+(* Take on a list whose NumPy array is 1-D (vector, ragged / mixed list) *)
+Lemma array_size_1d : forall l, (npdepth (VL l) <= 1)%nat -> array_size (VL l) = zlen l.
+Proof.
+  intros l H. unfold array_size, npdepth in *. destruct (rshape (VL l)) as [sh|] eqn:R; [|reflexivity].
+  destruct (rshape_list _ _ R) as [s [E _]]. subst sh. cbn [List.length] in H.
+  destruct s; [|cbn in H; lia]. cbn [prodn]. unfold zlen. lia.
+Qed.
+
+Lemma take_list_spec : forall n l, (npdepth (VL l) <= 1)%nat ->
+  m_take (VI n) (VL l) = Ok (VL (s_take VU n l)).
+Proof.
+  intros n l H1. unfold m_take. cbn [as_members]. rewrite (array_size_1d l H1). cbn [rejoin].
+  unfold s_take.
+  destruct (zlen l =? 0) eqn:E0.
+  - apply Z.eqb_eq in E0. unfold zlen in E0. destruct l; [reflexivity|cbn in E0; lia].
+  - apply Z.eqb_neq in E0. assert (Lpos : 0 < zlen l) by (unfold zlen in *; lia).
+    destruct (zlen l <? Z.abs n) eqn:Ebig.
+    + apply Z.ltb_lt in Ebig.
+      assert (Hd : (1 <? npdepth (VL l))%nat = false) by (apply Nat.ltb_ge; exact H1). rewrite Hd.
+      set (q := Z.abs n / zlen l).
+      pose proof (Z.div_mod (Z.abs n) (zlen l) ltac:(lia)) as Hdm.
+      pose proof (Z.mod_pos_bound (Z.abs n) (zlen l) Lpos) as Hmb.
+      assert (Hq : 1 <= q) by (unfold q; apply Z.div_le_lower_bound; lia).
+      set (t := tile (Z.to_nat q) l).
+      assert (Ht : zlen t = q * zlen l) by (unfold zlen, t; rewrite tile_length; unfold zlen; lia).
+      assert (Hr : Z.abs n - zlen t = Z.abs n mod zlen l) by (fold q in Hdm; lia).
+      assert (HLt : zlen l <= zlen t) by (rewrite Ht; nia).
+      pose proof (Q_tile l Lpos (Z.to_nat q)) as Qt. fold t in Qt.
+      f_equal. f_equal.
+      destruct (0 <? n) eqn:Epos.
+      * apply Z.ltb_lt in Epos. replace (n <? 0) with false by (symmetry; apply Z.ltb_ge; lia).
+        unfold py_head. replace (Z.min n 0) with 0 by lia.
+        apply (Q_final VU l); [|].
+        -- apply Q_firstn. apply Q_app; [exact Qt|]. apply Q_firstn.
+           rewrite Ht. replace (0 + q * zlen l) with (0 + q * zlen l) by reflexivity. apply Q_shift. exact Qt.
+        -- rewrite firstn_length, app_length, firstn_length. unfold zlen in *. lia.
+      * apply Z.ltb_ge in Epos. assert (n < 0) by lia. replace (n <? 0) with true by (symmetry; apply Z.ltb_lt; lia).
+        replace (Z.min n 0) with n by lia.
+        destruct (Z.abs n - zlen t =? 0) eqn:Er0.
+        -- apply Z.eqb_eq in Er0. unfold py_last.
+           apply (Q_final VU l).
+           ++ apply (Q_cong VU l (zlen t) n (-2 * q)); [lia|].
+              replace (zlen t) with (0 + Z.of_nat (Z.to_nat (zlen (t ++ t) - Z.abs n))).
+              ** apply Q_skipn. apply Q_app; [exact Qt|]. rewrite Ht. apply Q_shift. exact Qt.
+              ** unfold zlen. rewrite app_length. unfold zlen in *. lia.
+           ++ unfold zlen in *. rewrite skipn_length, !app_length. lia.
+        -- apply Z.eqb_neq in Er0. unfold py_last.
+           set (r := Z.abs n - zlen t) in *.
+           assert (Hlen2 : zlen (skipn (Z.to_nat (zlen t - r)) t ++ t) = Z.abs n).
+           { unfold zlen. rewrite app_length, skipn_length. unfold zlen in *. lia. }
+           rewrite Hlen2. replace (Z.to_nat (Z.abs n - Z.abs n)) with O by lia. cbn [skipn].
+           apply (Q_final VU l).
+           ++ apply (Q_cong VU l (0 + Z.of_nat (Z.to_nat (zlen t - r))) n (-2 * q)); [lia|]. apply Q_app.
+              ** apply Q_skipn. exact Qt.
+              ** replace (0 + Z.of_nat (Z.to_nat (zlen t - r)) + zlen (skipn (Z.to_nat (zlen t - r)) t)) with (0 + q * zlen l).
+                 --- apply Q_shift. exact Qt.
+                 --- unfold zlen. rewrite skipn_length. unfold zlen in *. lia.
+           ++ unfold zlen in *. lia.
+    + apply Z.ltb_ge in Ebig. f_equal. f_equal.
+      destruct (n <? 0) eqn:Eneg.
+      * apply Z.ltb_lt in Eneg. unfold py_last. replace (Z.min n 0) with n by lia.
+        apply (Q_final VU l).
+        -- apply (Q_cong VU l (0 + Z.of_nat (Z.to_nat (zlen l - Z.abs n))) n (-1)); [lia|].
+           apply Q_skipn. apply Q_base.
+        -- rewrite skipn_length. unfold zlen in *. lia.
+      * apply Z.ltb_ge in Eneg. unfold py_head. replace (Z.min n 0) with 0 by lia.
+        apply (Q_final VU l).
+        -- apply Q_firstn. apply Q_base.
+        -- rewrite firstn_length. unfold zlen in *. lia.
+Qed.
+
+(* ------------------------------------------------------------------ strings: the code works on the character array and joins *)
+Lemma joined_chars : forall t, joined (chars t) = Ok (VS t).
+Proof.
+  intros t. unfold joined. assert (H : join_strs (chars t) = Ok t).
+  { induction t as [|c t IH]; [reflexivity|]. cbn [chars map join_strs]. unfold chars in IH. rewrite IH. reflexivity. }
+  rewrite H. reflexivity.
+Qed.
+
+Lemma ix_chars : forall s j, 0 <= j < zlen s -> ix VU (chars s) j = VC (ix 0 s j).
+Proof.
+  intros s j H. unfold ix, chars.
+  rewrite (nth_indep _ VU (VC 0)) by (rewrite map_length; unfold zlen in H; lia).
+  apply map_nth.
+Qed.
+
+Lemma tab_chars : forall s k g, (forall i, 0 <= i < k -> 0 <= g i < zlen s) ->
+  tab k (fun i => ix VU (chars s) (g i)) = chars (tab k (fun i => ix 0 s (g i))).
+Proof.
+  intros s k g H. unfold tab, chars. rewrite map_map. apply map_ext_in.
+  intros i Hi. apply in_seq in Hi. apply ix_chars. apply H. lia.
+Qed.
+
+Lemma zlen_chars : forall s, zlen (chars s) = zlen s.
+Proof. intros s. unfold zlen, chars. rewrite map_length. reflexivity. Qed.
+
+Lemma npdepth_chars : forall s, (npdepth (VL (chars s)) <= 1)%nat.
+Proof. intros [|c s]; cbn; lia. Qed.
+
+Lemma take_string_via_list : forall n s,
+  m_take (VI n) (VS s) = match m_take (VI n) (VL (chars s)) with Ok (VL r) => joined r | _ => Err end.
+Proof.
+  intros n s. unfold m_take. cbn [as_members]. rewrite (array_size_1d _ (npdepth_chars s)).
+  assert (Hd : (1 <? npdepth (VL (chars s)))%nat = false) by (apply Nat.ltb_ge; apply npdepth_chars).
+  rewrite Hd. cbn [npdepth Nat.ltb Nat.leb rejoin].
+  destruct (zlen (chars s) =? 0); [reflexivity|].
+  destruct (zlen (chars s) <? Z.abs n); reflexivity.
+Qed.
+
+Lemma take_string_spec : forall n s, m_take (VI n) (VS s) = Ok (VS (s_take 0 n s)).
+Proof.
+  intros n s. rewrite take_string_via_list. rewrite take_list_spec by apply npdepth_chars.
+  unfold s_take. rewrite zlen_chars. destruct (zlen s =? 0) eqn:E0; [reflexivity|].
+  apply Z.eqb_neq in E0. assert (0 < zlen s) by (unfold zlen in *; lia).
+  rewrite tab_chars; [apply joined_chars|].
+  intros i Hi. apply Z.mod_pos_bound. assumption.
+Qed.
+
+Lemma rotate_list_1d : forall n l, rotate_uses_axis0 = true \/ rshape (VL l) = None \/ (exists k, rshape (VL l) = Some [k]) ->
+  m_rotate (VI n) (VL l) = Ok (VL (s_rotate VU n l)).
+Proof.
+  intros n l H. unfold m_rotate.
+  assert (Hroll : roll n l = s_rotate VU n l).
+  { unfold roll. destruct l as [|x l']; [reflexivity|]. apply (roll_spec VU n (x :: l')). discriminate. }
+  destruct (n =? 0) eqn:E0.
+  - apply Z.eqb_eq in E0. subst n. rewrite <- Hroll. f_equal. f_equal.
+    unfold roll. destruct l as [|x l']; [reflexivity|]. rewrite Z.mod_0_l by (unfold zlen; cbn; lia).
+    cbn [Z.to_nat]. rewrite Nat.sub_0_r. rewrite skipn_all, firstn_all. reflexivity.
+  - destruct H as [H|[H|[k H]]].
+    + rewrite H. rewrite Hroll. reflexivity.
+    + destruct rotate_uses_axis0; rewrite ?H, Hroll; reflexivity.
+    + destruct rotate_uses_axis0; [rewrite Hroll; reflexivity|]. rewrite H.
+      destruct (rshape_list _ _ H) as [s [E Fs]]. inversion E. subst s k.
+      unfold np_flat, npdepth. rewrite H. cbn [List.length flat build prodn].
+      assert (Hf : flat_map (fun v : val => [v]) l = l) by (clear; induction l as [|y l' IHl]; [reflexivity|cbn; f_equal; apply IHl]).
+      rewrite Hf. rewrite Hroll. f_equal. f_equal.
+      (* build [len] of a list of that length is the list itself *)
+      assert (HL : List.length (s_rotate VU n l) = List.length l).
+      { unfold s_rotate. destruct (zlen l =? 0) eqn:Z0; [apply Z.eqb_eq in Z0; unfold zlen in Z0; destruct l; cbn in *; [reflexivity|lia]|].
+        rewrite tab_length. unfold zlen. lia. }
+      rewrite <- HL. generalize (s_rotate VU n l). intros r.
+      apply (nth_ext _ _ VU VU).
+      * rewrite map_length, seq_length. reflexivity.
+      * intros i Hi. rewrite map_length, seq_length in Hi.
+        rewrite (nth_indep _ VU (hd VU (firstn 1 (skipn (0 * 1) r)))) by (rewrite map_length, seq_length; exact Hi).
+        rewrite (map_nth (fun i0 => hd VU (firstn 1 (skipn (i0 * 1) r))) (seq 0 (List.length r)) O i).
+        rewrite seq_nth by exact Hi. cbn [Nat.add]. rewrite Nat.mul_1_r.
+        replace (nth i r VU) with (nth (i + 0) r VU) by (f_equal; lia). rewrite <- (nth_skipn' VU i r 0).
+        destruct (skipn i r) as [|y ys] eqn:Es; [|reflexivity].
+        exfalso. assert (X : List.length (skipn i r) = O) by (rewrite Es; reflexivity). rewrite skipn_length in X. lia.
+Qed.
+
+Lemma rotate_string_spec : forall n s, m_rotate (VI n) (VS s) = Ok (VS (s_rotate 0 n s)).
+Proof.
+  intros n s. unfold m_rotate.
+  assert (Hroll : roll n (chars s) = s_rotate VU n (chars s)).
+  { unfold roll. destruct (chars s) as [|x l'] eqn:Ec; [reflexivity|]. apply (roll_spec VU n (x :: l')). discriminate. }
+  assert (Hj : joined (s_rotate VU n (chars s)) = Ok (VS (s_rotate 0 n s))).
+  { unfold s_rotate. rewrite zlen_chars. destruct (zlen s =? 0) eqn:E0; [reflexivity|].
+    apply Z.eqb_neq in E0. assert (0 < zlen s) by (unfold zlen in *; lia).
+    rewrite tab_chars; [apply joined_chars|]. intros i Hi. apply Z.mod_pos_bound. assumption. }
+  destruct (n =? 0) eqn:E0.
+  - apply Z.eqb_eq in E0. subst n. f_equal. f_equal. unfold s_rotate.
+    destruct (zlen s =? 0) eqn:Z0; [apply Z.eqb_eq in Z0; unfold zlen in Z0; destruct s; cbn in *; [reflexivity|lia]|].
+    apply Z.eqb_neq in Z0. apply (eq_tab 0); [unfold zlen; lia|].
+    intros i Hi. unfold ix. rewrite Z.sub_0_r. rewrite Z.mod_small by (unfold zlen; lia). rewrite Nat2Z.id. reflexivity.
+  - rewrite Hroll. exact Hj.
+Qed.
+
+
+(* ------------------------------------------------------------------ instances for the verbs *)
+Lemma fuel2_enough : forall a b, (depth a + depth b < fuel2 a b)%nat.
+Proof. intros. unfold fuel2. lia. Qed.
+
+Definition num_tree (v : val) : bool := all_leaves is_num v.
+Definition nonzero_tree (v : val) : bool := all_leaves (fun y => is_num y && negb (is_zero y)) v.
+Definition no_obj (a b : val) : bool := negb (is_obj a) && negb (is_obj b).
+
+Section Instances.
+  Variables a b : val.
+  Hypothesis Na : num_tree a = true.
+  Hypothesis Nb : num_tree b = true.
+  Hypothesis Hc : conformable a b = true.
+  Hypothesis Hk : kb_np a b = false.
+
+  Lemma same_py : forall (sf : val -> val -> res) (x y : val), is_num y = true -> sf x y = sf x y.
+  Proof. reflexivity. Qed.
+
+  Lemma add_spec : m_add a b = s2 sc_add a b.
+  Proof. apply (np2_rec_spec sc_add sc_add is_num (same_py sc_add)); try assumption. apply fuel2_enough. Qed.
+  Lemma sub_spec : m_sub a b = s2 sc_sub a b.
+  Proof. apply (np2_rec_spec sc_sub sc_sub is_num (same_py sc_sub)); try assumption. apply fuel2_enough. Qed.
+  Lemma mul_spec : m_mul a b = s2 sc_mul a b.
+  Proof. apply (np2_rec_spec sc_mul sc_mul is_num (same_py sc_mul)); try assumption. apply fuel2_enough. Qed.
+
+  Lemma div_py : forall x y, is_num y && negb (is_zero y) = true -> sc_div_py x y = sc_div x y.
+  Proof.
+    intros x y H. apply andb_true_iff in H. destruct H as [H1 H2]. apply negb_true_iff in H2.
+    destruct y as [z|r| | | | |]; try discriminate; cbn [sc_div_py].
+    - destruct z; try reflexivity. cbn in H2. discriminate.
+    - cbn [is_zero] in H2. rewrite H2. reflexivity.
+  Qed.
+
+  Lemma div_spec : nonzero_tree b = true -> m_div a b = s2 sc_div a b.
+  Proof.
+    intros Hz. unfold m_div.
+    assert (P : both_atoms_zero_divisor a b = false).
+    { unfold both_atoms_zero_divisor. destruct (is_arr a); [reflexivity|]. destruct (is_arr b) eqn:Ab; [reflexivity|].
+      cbn [negb andb]. unfold nonzero_tree in Hz. rewrite (all_leaves_atom _ b Ab) in Hz.
+      apply andb_true_iff in Hz. destruct Hz as [_ Hz]. apply negb_true_iff in Hz.
+      destruct b; try reflexivity; exact Hz. }
+    rewrite P.
+    apply (np2_rec_spec sc_div sc_div_py (fun y => is_num y && negb (is_zero y)) div_py); try assumption. apply fuel2_enough.
+  Qed.
+
+  Hypothesis Ho : no_obj a b = true.
+
+  Lemma no_obj_l : is_obj a = false.
+  Proof. unfold no_obj in Ho. apply andb_true_iff in Ho. destruct Ho as [H _]. apply negb_true_iff in H. exact H. Qed.
+  Lemma no_obj_r : is_obj b = false.
+  Proof. unfold no_obj in Ho. apply andb_true_iff in Ho. destruct Ho as [_ H]. apply negb_true_iff in H. exact H. Qed.
+
+  Lemma min_spec : m_min a b = s2 sc_min a b.
+  Proof. unfold m_min, fuel2. apply np2_rect_spec; try assumption; [apply no_obj_l|apply no_obj_r]. Qed.
+  Lemma max_spec : m_max a b = s2 sc_max a b.
+  Proof. unfold m_max, fuel2. apply np2_rect_spec; try assumption; [apply no_obj_l|apply no_obj_r]. Qed.
+  Lemma rem_spec : m_rem a b = s2 sc_fmod a b.
+  Proof. unfold m_rem, fuel2. apply np2_rect_spec; try assumption; [apply no_obj_l|apply no_obj_r]. Qed.
+End Instances.
+
+(* vec_fn2 with two leaf functions that agree on numeric operands *)
+Lemma vec2_gen_LL : forall leaf f' la lb, vec2 (S f') leaf (VL la) (VL lb) =
+  if is_obj (VL la) || is_obj (VL lb)
+  then bind (rzip (vec2 f' leaf) la lb) (fun l => Ok (norm (VL l))) else leaf (VL la) (VL lb).
+Proof. reflexivity. Qed.
+Lemma vec2_gen_LA : forall leaf f' la b, is_arr b = false -> vec2 (S f') leaf (VL la) b =
+  if is_obj (VL la) then bind (rmap (fun x => vec2 f' leaf x b) la) (fun l => Ok (norm (VL l))) else leaf (VL la) b.
+Proof. intros leaf f' la b H. destruct b; try discriminate; reflexivity. Qed.
+Lemma vec2_gen_AL : forall leaf f' a lb, is_arr a = false -> vec2 (S f') leaf a (VL lb) =
+  if is_obj (VL lb) then bind (rmap (fun y => vec2 f' leaf a y) lb) (fun l => Ok (norm (VL l))) else leaf a (VL lb).
+Proof. intros leaf f' a lb H. destruct a; try discriminate; reflexivity. Qed.
+Lemma vec2_gen_AA : forall leaf f' a b, is_arr a = false -> is_arr b = false -> vec2 (S f') leaf a b = leaf a b.
+Proof. intros leaf f' a b Ha Hb. destruct a; try discriminate; destruct b; try discriminate; reflexivity. Qed.
+
+Lemma vec2_ext_num : forall leaf leaf' : val -> val -> res,
+  (forall a b, num_tree a = true -> num_tree b = true -> leaf a b = leaf' a b) ->
+  forall fuel a b, num_tree a = true -> num_tree b = true -> vec2 fuel leaf a b = vec2 fuel leaf' a b.
+Proof.
+  intros leaf leaf' Hl. unfold num_tree in *. induction fuel as [|f' IH]; intros a b Na Nb; [reflexivity|].
+  destruct (is_arr a) eqn:Aa; destruct (is_arr b) eqn:Ab.
+  - destruct (is_arr_true _ Aa) as [la ->]. destruct (is_arr_true _ Ab) as [lb ->].
+    rewrite !vec2_gen_LL. destruct (is_obj (VL la) || is_obj (VL lb)); [|apply Hl; assumption].
+    f_equal. apply rzip_ext. intros x y Hx Hy. apply IH; [exact (all_leaves_in _ _ _ Na Hx)|exact (all_leaves_in _ _ _ Nb Hy)].
+  - destruct (is_arr_true _ Aa) as [la ->]. rewrite !vec2_gen_LA by exact Ab.
+    destruct (is_obj (VL la)); [|apply Hl; assumption].
+    f_equal. apply rmap_ext. intros x Hx. apply IH; [exact (all_leaves_in _ _ _ Na Hx)|exact Nb].
+  - destruct (is_arr_true _ Ab) as [lb ->]. rewrite !vec2_gen_AL by exact Aa.
+    destruct (is_obj (VL lb)); [|apply Hl; assumption].
+    f_equal. apply rmap_ext. intros y Hy. apply IH; [exact Na|exact (all_leaves_in _ _ _ Nb Hy)].
+  - rewrite !vec2_gen_AA by assumption. apply Hl; assumption.
+Qed.
+
+Lemma leaf2n_num : forall sf a b, num_tree a = true -> num_tree b = true -> leaf2n sf a b = leaf2 sf a b.
+Proof.
+  intros sf a b Na Nb. unfold leaf2n. unfold num_tree in *.
+  rewrite (num_tree_not_str a Na), (num_tree_not_str b Nb). rewrite andb_false_r. reflexivity.
+Qed.
+
+Section VecInstances.
+  Variables (a b v : val).
+  Hypothesis Hc : conformable a b = true.
+  Hypothesis Hk : kb_vec a b = false.
+  Hypothesis Hn : norm v = v.
+
+  Lemma equal_spec : s2 sc_equal a b = Ok v -> m_equal a b = Ok v.
+  Proof. intros Hs. unfold m_equal. apply vec2_spec; try assumption. apply fuel2_enough. Qed.
+
+  Hypothesis Na : num_tree a = true.
+  Hypothesis Nb : num_tree b = true.
+
+  Lemma less_spec : s2 sc_less a b = Ok v -> m_less a b = Ok v.
+  Proof.
+    intros Hs. unfold m_less. rewrite (vec2_ext_num (leaf2n sc_less) (leaf2 sc_less) (leaf2n_num sc_less)) by assumption.
+    apply vec2_spec; try assumption. apply fuel2_enough.
+  Qed.
+  Lemma more_spec : s2 sc_more a b = Ok v -> m_more a b = Ok v.
+  Proof.
+    intros Hs. unfold m_more. rewrite (vec2_ext_num (leaf2n sc_more) (leaf2 sc_more) (leaf2n_num sc_more)) by assumption.
+    apply vec2_spec; try assumption. apply fuel2_enough.
+  Qed.
+  Lemma idiv_spec : nonzero_tree b = true -> s2 sc_idiv a b = Ok v -> m_idiv a b = Ok v.
+  Proof.
+    intros Hz Hs. unfold m_idiv.
+    assert (P : both_atoms_zero_divisor a b = false).
+    { unfold both_atoms_zero_divisor. destruct (is_arr a); [reflexivity|]. destruct (is_arr b) eqn:Ab; [reflexivity|].
+      cbn [negb andb]. unfold nonzero_tree in Hz. rewrite (all_leaves_atom _ b Ab) in Hz.
+      apply andb_true_iff in Hz. destruct Hz as [_ Hz]. apply negb_true_iff in Hz.
+      destruct b; try reflexivity; exact Hz. }
+    rewrite P. rewrite (vec2_ext_num (leaf2n sc_idiv) (leaf2 sc_idiv) (leaf2n_num sc_idiv)) by assumption.
+    apply vec2_spec; try assumption. apply fuel2_enough.
+  Qed.
+End VecInstances.
+
+(* comparison of two atoms of any kind (strings, characters, symbols are compared as wholes) *)
+Lemma less_atoms : forall a b, is_arr a = false -> is_arr b = false -> m_less a b = sc_less a b.
+Proof.
+  intros a b Ha Hb. unfold m_less, fuel2. rewrite vec2_gen_AA by assumption.
+  unfold leaf2n. rewrite Ha, Hb. rewrite !andb_false_r. cbn [orb]. unfold leaf2, bcast.
+  rewrite (rdepth_atom _ Ha), (rdepth_atom _ Hb). reflexivity.
+Qed.
+Lemma equal_atoms : forall a b, is_arr a = false -> is_arr b = false -> m_equal a b = sc_equal a b.
+Proof.
+  intros a b Ha Hb. unfold m_equal, fuel2. rewrite vec2_gen_AA by assumption. unfold leaf2, bcast.
+  rewrite (rdepth_atom _ Ha), (rdepth_atom _ Hb). reflexivity.
+Qed.
+
+(* kinds of scalar results *)
+Lemma kind_int_closed : forall x y,
+  (exists z, sc_add (VI x) (VI y) = Ok (VI z)) /\ (exists z, sc_sub (VI x) (VI y) = Ok (VI z)) /\
+  (exists z, sc_mul (VI x) (VI y) = Ok (VI z)) /\ (exists z, sc_min (VI x) (VI y) = Ok (VI z)) /\
+  (exists z, sc_max (VI x) (VI y) = Ok (VI z)) /\ (exists z, sc_fmod (VI x) (VI y) = Ok (VI z)) /\
+  (y <> 0 -> sc_idiv (VI x) (VI y) = Ok (VI (Z.quot x y))).
+Proof.
+  intros x y. repeat split; try (eexists; reflexivity).
+  intros H. cbn [sc_idiv]. destruct (y =? 0) eqn:E; [apply Z.eqb_eq in E; contradiction|reflexivity].
+Qed.
+
+Lemma kind_divide_real : forall a b r, sc_div a b = Ok r -> exists x, r = VR x.
+Proof. intros a b r H. unfold sc_div in H. destruct (toR a); destruct (toR b); try discriminate. inversion H. eexists; reflexivity. Qed.
+
+Lemma kind_compare_bit : forall a b r, sc_less a b = Ok r \/ sc_equal a b = Ok r -> r = VI 0 \/ r = VI 1.
+Proof.
+  intros a b r [H|H].
+  - unfold sc_less in H. destruct a; destruct b; cbn in H; try discriminate;
+      try (inversion H; match goal with |- context [if ?c then _ else _] => destruct c end; auto; fail).
+    all: try (destruct (text_of _); try discriminate).
+    all: try (inversion H; unfold b2v; match goal with |- context [if ?c then _ else _] => destruct c end; auto).
+  - unfold sc_equal in H. destruct a; destruct b; cbn in H; try discriminate;
+      try (inversion H; unfold b2v; match goal with |- context [if ?c then _ else _] => destruct c end; auto; fail);
+      try (inversion H; auto; fail).
+Qed.
+
+Lemma kind_floor_int : forall a r, sc_floor a = Ok r -> exists z, r = VI z.
+Proof. intros a r H. destruct a; cbn in H; try discriminate; inversion H; eexists; reflexivity. Qed.
